@@ -164,6 +164,8 @@ fn gen_trace_in(r: &mut Rng, kind: PoolKind, n: usize, segmented_tls: bool, prob
         let (ca, sa, c6, s6) = if probe_space { (192u8, 198u8, 0x6000u16, 0xa000u16) } else { (10u8, 172u8, 0u16, 0x8000u16) };
         let c = if v6 { Endpoint::v6(c6 + 1 + r.below(5000) as u16, 1024 + r.below(60000) as u16) } else { Endpoint::v4(ca, r.u8(), r.u8(), 1 + r.below(250) as u8, 1024 + r.below(60000) as u16) };
         let s = if v6 { Endpoint::v6(s6 + r.below(50) as u16, *r.pick(&[80u16, 443, 8080])) } else { Endpoint::v4(sa, 16, r.u8(), 1 + r.below(250) as u8, *r.pick(&[80u16, 443, 8080, 8443])) };
+        // some connections run between two ports of one address (loopback capture, hairpin NAT)
+        let s = if r.chance(1, 6) { Endpoint { ip: c.ip, port: s.port } } else { s };
         if !eps.iter().any(|(a, b)| (*a == c && *b == s) || (*a == s && *b == c)) {
             eps.push((c, s));
         }
